@@ -59,7 +59,7 @@ RULE = ("pairs (A, B) over null, boolean, number, string, literals, arrays, tupl
 def run(chk):
     chk.build_rust(); chk.build_js()
     quick = chk.tier == "quick"
-    passes = [_corpus] + ([_pass(chk.seed * 100 + 5, 6000, "sub(random)")] if quick else [_pass(chk.seed * 100 + k, 40000, f"sub(random#{k})") for k in range(6)])
+    passes = [_corpus] + ([_pass(chk.seed * 100 + 5, 30000, "sub(random)")] if quick else [_pass(chk.seed * 100 + k, 40000, f"sub(random#{k})") for k in range(6)])
     r = vcheck.generic_run(chk, MODULES, AUDIT, passes,
         ["C05: Model/SemType.lean is a hand-written port of semtype.rs / subtype.rs / mapping.rs / the list part of bdd.rs / dnf.rs / mod.rs restricted to the fragment (index "
          "signatures keyed by `string` only; bigint, Date, void/undefined, typed arrays, Map, Set as one opaque bit); fuel replaces Rust recursion",
